@@ -178,13 +178,17 @@ Definition xnormalize (x : xschema) : xschema := map (fun e => (fst e, norm_def 
 Definition ref_ok (x : xschema) (t : tref) : bool :=
   Nat.ltb (wrappers t) ref_depth && match lookup (named_of t) x with Some _ => true | None => false end.
 
+(** The type of an output field names an output type (an input object is a type of arguments only). *)
+Definition out_ref_ok (x : xschema) (t : tref) : bool :=
+  ref_ok x t && match lookup (named_of t) x with Some (XInput _) => false | _ => true end.
+
 Definition def_ok (x : xschema) (d : xdef) : bool :=
   match d with
   | XScalar => true
   | XEnum vs => nodup_keys (map fst vs)
   | XObject _ fs _ =>
       nodup_keys (map fst fs) &&
-      forallb (fun f => ref_ok x (fst (snd f)) && nodup_keys (map fst (snd (snd f))) &&
+      forallb (fun f => out_ref_ok x (fst (snd f)) && nodup_keys (map fst (snd (snd f))) &&
                         forallb (fun a => ref_ok x (snd a)) (snd (snd f))) fs
   | XUnion _ ms => nodup_keys ms && forallb (fun m => match lookup m x with Some (XObject _ _ _) => true | _ => false end) ms
   | XInput fs => nodup_keys (map fst fs) && forallb (fun a => ref_ok x (snd a)) fs
